@@ -842,7 +842,7 @@ fn forget_children(ctx: &mut Ctx) {
         "AttachHandle::forget() is irreversible for a static: each history runs in a child process (vcheck C17 --child n): attach, n appends, forget, n more appends (must still be delivered, in order, to the same sink), attach again (must panic without damaging the global), one more append. Non-trivial = every history",
     );
     let n_children = ctx.tier.pick(4, 40);
-    let exe = std::env::current_exe().unwrap();
+    let exe = crate::engine::self_exe();
     let mut failure = None;
     for i in 0..n_children {
         let n = 1 + (i * 7 + (ctx.seed % 5) as usize) % 40;
